@@ -37,11 +37,16 @@ type ceilingSpec struct {
 }
 
 type policyCase struct {
-	Part       string            `json:"part"` // "policy"
-	Settings   map[string]string `json:"settings"`
-	Ceiling    ceilingSpec       `json:"ceiling"`
-	ViaService bool              `json:"via_service"`
-	Reconfig   bool              `json:"reconfigure_path"`
+	Part     string            `json:"part"` // "policy"
+	Settings map[string]string `json:"settings"`
+	Ceiling  ceilingSpec       `json:"ceiling"`
+	// ZeroTimeout / ZeroMax clear the field on the requested Policy before the
+	// direct ResolvePolicy call (a Policy literal without the field, as in the
+	// repo's own tests; ResolvePolicy documents the <=0 => default rule).
+	ZeroTimeout bool `json:"zero_timeout"`
+	ZeroMax     bool `json:"zero_max"`
+	ViaService  bool `json:"via_service"`
+	Reconfig    bool `json:"reconfigure_path"`
 }
 
 // buildCeiling mirrors conduit.Config.egressCeiling (pkg/conduit/config.go).
@@ -171,6 +176,8 @@ func genPolicyCase(t *rapid.T) policyCase {
 	if !c.Ceiling.Enabled {
 		c.Ceiling.KeepFieldsWhenDisabled = rapid.Bool().Draw(t, "disabled-keeps-fields")
 	}
+	c.ZeroTimeout = rapid.IntRange(0, 5).Draw(t, "zero-timeout") == 3
+	c.ZeroMax = rapid.IntRange(0, 5).Draw(t, "zero-max") == 3
 	c.ViaService = rapid.Bool().Draw(t, "via-service")
 	if c.ViaService {
 		c.Reconfig = rapid.Bool().Draw(t, "reconfigure-path")
@@ -389,9 +396,18 @@ func runPolicyCase(c policyCase) policyResult {
 	if reqErr != nil {
 		res.Classes = append(res.Classes, "policy:requested-malformed")
 	} else {
-		eff, dropped := egress.ResolvePolicy(req, ceil)
-		res.Violations = append(res.Violations, checkEffective(req, ceil, eff, dropped, true)...)
-		dims := exceeds(req, ceil)
+		direct := req
+		if c.ZeroTimeout && direct.Enabled {
+			direct.Timeout = 0
+			res.Classes = append(res.Classes, "policy:requested-timeout-unset")
+		}
+		if c.ZeroMax && direct.Enabled {
+			direct.MaxResponseBytes = 0
+			res.Classes = append(res.Classes, "policy:requested-size-unset")
+		}
+		eff, dropped := egress.ResolvePolicy(direct, ceil)
+		res.Violations = append(res.Violations, checkEffective(direct, ceil, eff, dropped, true)...)
+		dims := exceeds(direct, ceil)
 		res.NonTrivial = len(dims) > 0
 		for _, d := range dims {
 			res.Classes = append(res.Classes, "policy:exceeds-"+d)
